@@ -101,13 +101,11 @@ func (sw *StreamReader) ReadEnvelopeBegin() (stream.EnvelopeHeader, error) {
 func (sw *StreamReader) readNonStrictEnvelope(length int32) (stream.EnvelopeHeader, error) {
 	var eh stream.EnvelopeHeader
 
-	buf := make([]byte, length)
-	for i := int32(0); i < length; i++ {
-		i8, err := sw.ReadInt8()
-		if err != nil {
-			return eh, err
-		}
-		buf[i] = byte(i8)
+	// Do not trust the declared length with an up-front allocation; read
+	// the name the same way binary values are read.
+	buf, err := sw.readBinaryOfLength(length)
+	if err != nil {
+		return eh, err
 	}
 
 	typ, err := sw.ReadInt8()
